@@ -12,6 +12,13 @@ Case (JSON-able dict):
   pre, post : halo sizes;  rel : relativeCoords;  depth : split depth
   tensor : bool  -- split through Tensor.splitXXX (rank ids / shape bookkeeping observed too)
   resplit: None | [kind2, arg2, pre2, post2]  -- every partition of a depth-0 split is split again
+  d == NONE_D : the leaf default is None ("no empty value"): stored zeros are ordinary non-empty
+           elements.  NONE_D never occurs as a payload, so in the model nothing but an empty fiber is
+           empty; a default None coming back from the implementation is reported as NONE_D
+  hist   : (optional, fiber mode) {"cut": k, "reads": [...], "grow": "append"|"ref"} -- the fibers at the
+           split level are built from their first k elements, queried read-only, grown to the full
+           literal, and only then split.  Not part of the Coq case: a correct implementation gives the
+           same observation for every history that ends in the same tree.
 
 Observation:
   fiber mode : X(depth, root)
@@ -96,10 +103,84 @@ def _obs_depth(f, k, d, orig):
     return out
 
 
+NONE_D = -999983
+
+
+def _impl_d(d):
+    """default handed to the shared builders (the sentinel is replaced by None afterwards)"""
+    return 0 if d == NONE_D else d
+
+
+def _set_none_default(f):
+    """leaf fibers of an unowned tree get default None"""
+    from fibertree import Fiber
+    if f.payloads and isinstance(f.payloads[0], Fiber):
+        for p in f.payloads:
+            _set_none_default(p)
+    else:
+        f._setDefault(None)
+
+
+def _reads(f, names):
+    for n in names:
+        try:
+            if n == "active":
+                f.getActive()
+            elif n == "iter":
+                [c for c, _ in f.iterActive(tick=False)]
+            elif n == "shape":
+                f.getShape(all_ranks=False)
+                f.estimateShape(all_ranks=False)
+            elif n == "max":
+                f.maxCoord()
+            elif n == "and":
+                [c for c, _ in f & f]
+            elif n == "touch":
+                U.touch(f)
+        except Exception:
+            pass
+
+
+def _build_hist(t, d, lev, target, hist, root_shape=None, root_active=None):
+    """like U.build_fiber, but every fiber at level `target` is built in two steps around read-only
+    queries: first `cut` elements -> reads -> the remaining elements are appended"""
+    from fibertree import Fiber
+    coords = [c for c, _ in t]
+    pays = [U.dress(s) if isinstance(s, int) else _build_hist(s, d, lev + 1, target, hist) for _, s in t]
+    leaf = not (pays and isinstance(pays[0], Fiber))
+    staged = (lev == target and len(coords) >= 1)
+    k = min(hist["cut"], len(coords) - 1) if staged else len(coords)
+    f = Fiber(coords[:k], pays[:k]) if k else Fiber([], [])
+    if lev == 0:
+        if root_shape is not None:
+            f.getRankAttrs().setShape(root_shape)
+        if root_active is not None:
+            f.setActive(tuple(root_active))
+    if d == NONE_D:
+        if leaf:
+            f._setDefault(None)
+    elif d != 0:
+        f._setDefault(U.dress(d))
+    if staged:
+        _reads(f, hist["reads"])
+        for c, pl in zip(coords[k:], pays[k:]):
+            if hist["grow"] == "ref" and leaf and d != NONE_D:
+                ref = f.getPayloadRef(c)
+                ref <<= pl
+            else:
+                f.append(c, pl)
+    return f
+
+
 def build_root(case):
     """fiber mode: the operand fiber with shape / active range of the root set"""
-    f = U.build_fiber(case["tree"], case["d"])
+    d = case["d"]
     sh = case["shapes"][0]
+    if case.get("hist"):
+        return _build_hist(case["tree"], d, 0, case["depth"], case["hist"], sh, case.get("active"))
+    f = U.build_fiber(case["tree"], _impl_d(d))
+    if d == NONE_D:
+        _set_none_default(f)
     if sh is not None:
         f.getRankAttrs().setShape(sh)
     if case.get("active") is not None:
@@ -113,7 +194,9 @@ def run(case):
     try:
         if case.get("tensor"):
             nlev = len(case["shapes"])
-            T = U.build_tensor(case["tree"], nlev, case["shapes"], case["d"])
+            T = U.build_tensor(case["tree"], nlev, case["shapes"], _impl_d(case["d"]))
+            if case["d"] == NONE_D:
+                T.setDefault(None)
             ids0 = T.getRankIds()
             R = _call_split(T, kind, arg, pre, post, rel, depth)
             ids = []
@@ -126,6 +209,8 @@ def run(case):
             dflt = R.getDefault()
             from fibertree import Payload
             dflt = Payload.get(dflt)
+            if dflt is None:
+                dflt = NONE_D
             return [ids, [] if sh is None else list(sh), dflt, _obs_depth(R.getRoot(), depth, case["d"], case["tree"])]
         f = build_root(case)
         before = U.snap(f)
